@@ -137,6 +137,33 @@ func c09TwinOne(t *testing.T, run *h.Run, c c09Case) {
 }
 
 // MonC09 — world monitor: per-sync creation bound, per-sync update-deletion bound, spacing of mutating syncs.
+// c09Spacing: spacing of mutating syncs of one replica set (the memory is part of the state).
+func c09Spacing(c *w.MonCtx, v *w.SyncView, name string, mut bool) {
+	key := "lastmut:" + name
+	if mut {
+		if prev, ok := c.Pre.Mem[key]; ok {
+			parts := strings.Split(prev, ":")
+			sec, _ := strconv.Atoi(parts[0])
+			gap := int(c.Pre.Now/time.Second) - sec
+			freq := int(v.EDS.Spec.Strategy.ReconcileFrequency.Duration / time.Second)
+			c.Antecedent("C09/second-mutating-sync")
+			if parts[1] == "ok" && gap < freq-1 {
+				c.Violate("C09", "C09/spacing: two syncs of one replica set that create or delete pods are closer than reconcileFrequency", fmt.Sprintf("gap %ds < %ds", gap, freq))
+			}
+		}
+		ok := "fail"
+		for _, call := range c.Out.Log {
+			if call.Kind == "ExtendedDaemonSetReplicaSet" && call.Sub == "status" && call.Err == nil {
+				ok = "ok"
+			}
+		}
+		if c.Out.Next.Mem == nil {
+			c.Out.Next.Mem = map[string]string{}
+		}
+		c.Out.Next.Mem[key] = fmt.Sprintf("%d:%s", int(c.Pre.Now/time.Second), ok)
+	}
+}
+
 func monC09(c *w.MonCtx) {
 	if c.Out.Ev.K != "R_ers" {
 		return
@@ -144,7 +171,12 @@ func monC09(c *w.MonCtx) {
 	i := strings.IndexByte(c.Out.Ev.A, '/')
 	ns, name := c.Out.Ev.A[:i], c.Out.Ev.A[i+1:]
 	v := w.BuildSyncView(c.Pre, c.Out.Log, ns, name)
-	if v == nil || v.Role != "active" {
+	if v == nil {
+		return
+	}
+	if v.Role != "active" {
+		// the spacing clause speaks of "the same replica set", whatever its role is at the two moments
+		c09Spacing(c, v, name, len(v.Creates)+len(v.Deletes) > 0)
 		return
 	}
 	ru := v.EDS.Spec.Strategy.RollingUpdate
@@ -180,31 +212,7 @@ func monC09(c *w.MonCtx) {
 	if upd > mu {
 		c.Violate("C09", "C09/deletes: more than maxUnavailable pods deleted for updating in one sync", fmt.Sprintf("%d > %d", upd, mu))
 	}
-	// spacing of mutating syncs (memory is part of the state)
-	key := "lastmut:" + name
-	mut := len(v.Creates)+upd > 0
-	if mut {
-		if prev, ok := c.Pre.Mem[key]; ok {
-			parts := strings.Split(prev, ":")
-			sec, _ := strconv.Atoi(parts[0])
-			gap := int(c.Pre.Now/time.Second) - sec
-			freq := int(v.EDS.Spec.Strategy.ReconcileFrequency.Duration / time.Second)
-			c.Antecedent("C09/second-mutating-sync")
-			if parts[1] == "ok" && gap < freq-1 {
-				c.Violate("C09", "C09/spacing: two syncs of one replica set that create or delete pods are closer than reconcileFrequency", fmt.Sprintf("gap %ds < %ds", gap, freq))
-			}
-		}
-		ok := "fail"
-		for _, call := range c.Out.Log {
-			if call.Kind == "ExtendedDaemonSetReplicaSet" && call.Sub == "status" && call.Err == nil {
-				ok = "ok"
-			}
-		}
-		if c.Out.Next.Mem == nil {
-			c.Out.Next.Mem = map[string]string{}
-		}
-		c.Out.Next.Mem[key] = fmt.Sprintf("%d:%s", int(c.Pre.Now/time.Second), ok)
-	}
+	c09Spacing(c, v, name, len(v.Creates)+upd > 0)
 }
 
 func TestC09(t *testing.T) {
@@ -258,7 +266,11 @@ func TestC09(t *testing.T) {
 		first: []w.Event{ev("R_eds", edsKey), ev("R_eds", edsKey), ev("R_eds", edsKey)}})
 	s2 := timed(scOpt{name: "S2-timed-rolling-update", nodes: nodes, alpha: ticks,
 		first: []w.Event{evb("setTemplate", edsKey, "B"), ev("R_eds", edsKey), ev("R_eds", edsKey)}})
-	for _, o := range []scOpt{s1, s2} {
+	// a canary that is validated at an arbitrary moment: the role of the replica set changes between two of its syncs
+	s3 := timed(scOpt{name: "S3-timed-canary-validated", nodes: []string{"n1", "n2"}, alpha: &w.Alpha{FreeTicks: []int{10}, Kubectl: []string{"canary-validate"}}, budget: 1,
+		first: []w.Event{evb("setTemplate", edsKey, "B"), ev("R_eds", edsKey), ev("R_eds", edsKey)}})
+	s3.eds = append(s3.eds, w.WithCanary("1", 0, 0, "manual"))
+	for _, o := range []scOpt{s1, s2, s3} {
 		o.mons = []func(*w.MonCtx){monC09}
 		setupRun = run
 		sc := mkScenario(t, o)
